@@ -37,6 +37,7 @@ def load_all():
     for m in mods:
         mod = importlib.import_module("contracts." + m)
         mod.load(reg)
+    auto_declare(reg, table)
     try:
         from contracts import deps as _deps
         _deps.axiom_sanity(reg)
@@ -44,6 +45,46 @@ def load_all():
         print("CHECKER-ERROR axiom sanity setup: %s" % e)
     _cache["table"], _cache["reg"] = table, reg
     return table, reg
+
+
+def auto_declare(reg, table):
+    """Fields a class under contract initialises in __init__ with a constant and that no contract module declares: fields
+    added after the contracts were written (diagnostic counters, cached labels).  They are declared with the constant's type
+    so that the functions touching them stay inside the subset, and marked: no frame condition, invariant or postcondition
+    speaks about them, and every call and loop is assumed to have overwritten them (so nothing can be proved *from* them)."""
+    import ast
+    reg.auto_keys = set()
+    reg.auto_notes = []
+    for cname, ci in table.classes.items():
+        mro = table.mro(cname)
+        if not any(reg.fields.get(c) for c in mro):
+            continue
+        init = ci.methods.get("__init__")
+        if init is None:
+            continue
+        for node in ast.walk(init.node):
+            tgt = val = None
+            if isinstance(node, ast.Assign) and len(node.targets) == 1:
+                tgt, val = node.targets[0], node.value
+            elif isinstance(node, ast.AnnAssign) and node.value is not None:
+                tgt, val = node.target, node.value
+            if not (isinstance(tgt, ast.Attribute) and isinstance(tgt.value, ast.Name) and tgt.value.id == "self"
+                    and isinstance(val, ast.Constant)):
+                continue
+            name = tgt.attr
+            if name.startswith("__") and not name.endswith("__"):
+                name = "_%s%s" % (cname, name)
+            related = set(mro) | set(table.subclasses(cname))
+            if any(name in (reg.fields.get(c) or {}) for c in related):
+                continue
+            v = val.value
+            ty = "bool" if isinstance(v, bool) else "int" if isinstance(v, int) else "float" if isinstance(v, float) \
+                else "str" if isinstance(v, str) else None
+            if ty is None:
+                continue
+            reg.declare_fields(cname, **{name: ty})
+            reg.auto_keys.add("%s.%s" % (cname, name))
+            reg.auto_notes.append("%s.%s: %s (initialised with %r in __init__; not declared by any contract module)" % (cname, name, ty, v))
 
 
 def units_for(prop, reg, table):
